@@ -196,8 +196,16 @@ func TO2(ctx context.Context, transport Transport, to1d *cose.Sign1[protocol.To1
 	serviceInfoReader, serviceInfoWriter := serviceinfo.NewChunkOutPipe(0)
 	defer func() { _ = serviceInfoWriter.Close() }()
 
-	// Send devmod KVs in initial ServiceInfo
-	go c.Devmod.Write(ctx, c.DeviceModules, sendMTU, serviceInfoWriter)
+	// Send devmod KVs in initial ServiceInfo. Each devmod:modules chunk must
+	// fit into a single DeviceServiceInfo message, so the size given to devmod
+	// excludes the message overhead (5 bytes, see exchangeServiceInfo) and the
+	// up to 2 bytes by which the byte string header of a ServiceInfo value may
+	// exceed the array header that devmod accounts for.
+	var devmodMTU uint16
+	if sendMTU > 7 {
+		devmodMTU = sendMTU - 7
+	}
+	go c.Devmod.Write(ctx, c.DeviceModules, devmodMTU, serviceInfoWriter)
 
 	// Loop, sending and receiving service info until done
 	if err := exchangeServiceInfo(ctx, transport, proveDeviceNonce, setupDeviceNonce, sendMTU, serviceInfoReader, sess, &c); err != nil {
